@@ -19,7 +19,7 @@ use haloswap::pair::{
     ReverseSimulationResponse, SimulationResponse,
 };
 use haloswap::router::{
-    Cw20HookMsg as RouterHook, ExecuteMsg as RouterExecuteMsg, InstantiateMsg as RouterInstantiateMsg,
+    ExecuteMsg as RouterExecuteMsg, InstantiateMsg as RouterInstantiateMsg,
     QueryMsg as RouterQueryMsg, SimulateSwapOperationsResponse, SwapOperation,
 };
 use std::io::{self, BufRead, Write};
@@ -285,6 +285,9 @@ fn denom_s(d: u128) -> String {
         // with denom 0 as a proper prefix can be the smaller identifier of a pair)
         4 => "xuaura".to_string(),
         5 => "uzzz".to_string(),
+        // a second IBC voucher that shares its first 16 and its last 8 characters with denom 1 (long identifiers that differ
+        // in the middle only)
+        6 => "ibc/27394FB092D2A17B56123C74F36E4C1F926001CEADA9CA97EA622B25F41E5EB2".to_string(),
         _ => format!("denom{}", d),
     }
 }
@@ -383,28 +386,37 @@ impl<'a> Cur<'a> {
                 let bp = self.opt_dec();
                 let ms = self.opt_dec();
                 let to = self.opt_addr();
-                to_binary(&PairHook::Swap {
-                    offer_asset: Asset {
-                        info,
-                        amount: amount.into(),
-                    },
-                    belief_price: bp,
-                    max_spread: ms,
-                    to,
-                })
-                .unwrap()
+                // hook payloads are written at the WIRE level (the JSON documents wallets and front-ends send), not built
+                // from the crate's own message types: a change of the wire spelling must not be invisible to the driver
+                wire(serde_json::json!({"swap": {
+                    "offer_asset": {"info": ai_json(&info), "amount": amount.to_string()},
+                    "belief_price": bp.map(|d| d.to_string()),
+                    "max_spread": ms.map(|d| d.to_string()),
+                    "to": to,
+                }}))
             }
-            "hwithdraw" => to_binary(&PairHook::WithdrawLiquidity {}).unwrap(),
+            "hwithdraw" => Binary::from(b"{\"withdraw_liquidity\":{}}".to_vec()),
             "hrouter" => {
                 let operations = self.ops();
                 let m = self.opt_num();
                 let to = self.opt_addr();
-                to_binary(&RouterHook::ExecuteSwapOperations {
-                    operations,
-                    minimum_receive: m.map(Uint128::from),
-                    to,
-                })
-                .unwrap()
+                let ops_json: Vec<serde_json::Value> = operations
+                    .iter()
+                    .map(|o| match o {
+                        SwapOperation::HaloSwap {
+                            offer_asset_info,
+                            ask_asset_info,
+                        } => serde_json::json!({"halo_swap": {
+                            "offer_asset_info": ai_json(offer_asset_info),
+                            "ask_asset_info": ai_json(ask_asset_info),
+                        }}),
+                    })
+                    .collect();
+                wire(serde_json::json!({"execute_swap_operations": {
+                    "operations": ops_json,
+                    "minimum_receive": m.map(|v| v.to_string()),
+                    "to": to,
+                }}))
             }
             "hgarbage" => Binary::from(b"{\"nonsense\":{}}".to_vec()),
             // payloads that are well-formed messages of the RECEIVING contract's execute interface but not hook
@@ -474,6 +486,16 @@ impl<'a> Cur<'a> {
             _ => panic!("harness: bad hook"),
         }
     }
+}
+
+fn ai_json(a: &AssetInfo) -> serde_json::Value {
+    match a {
+        AssetInfo::NativeToken { denom } => serde_json::json!({"native_token": {"denom": denom}}),
+        AssetInfo::Token { contract_addr } => serde_json::json!({"token": {"contract_addr": contract_addr}}),
+    }
+}
+fn wire(v: serde_json::Value) -> Binary {
+    Binary::from(serde_json::to_vec(&v).unwrap())
 }
 
 struct World {
